@@ -23,7 +23,7 @@ _ASSUME = ["the compiled ProposalStore on ethermint's EVM behaves as the abstrac
 PROPS = {
     "C20": dict(
         suite="govshuttle",
-        modules=["CantoVerif.Props.C20", "CantoVerif.Props.AbiRoundTrip"],
+        modules=["CantoVerif.Props.C20", "CantoVerif.Props.AbiRoundTrip", "CantoVerif.Props.AbiGovshuttle"],
         theorems=[
             "CV.later_failure_unchanged",
             "CV.Govshuttle.stored_faithfully", "CV.Govshuttle.stored_faithfully_wellformed", "CV.Govshuttle.treasury_field_placement",
@@ -43,6 +43,12 @@ PROPS = {
             # contract on the real EVM: the raw QueryProp answer of every record of at most 1536 bytes is compared byte for byte
             "CV.Abi.decode_encode", "CV.Abi.decode_encode_append", "CV.Abi.decodeTuple_encodeTuple", "CV.Abi.decodeCall_encodeCall",
             "CV.Abi.encode_injective", "CV.Abi.encodeTuple_injective", "CV.Abi.encode_length_mod32", "CV.Abi.encode_wf",
+            # Props/AbiGovshuttle.lean: the ABI theorems about C20's own records - the records the keeper hands to the store are well-typed ABI
+            # values, the bytes QueryProp returns decode back to them and determine them (content below 2^200 bytes)
+            "CV.Govshuttle.abiOf_hasTy_iff", "CV.Govshuttle.abiOf_injective", "CV.Govshuttle.query_bytes_roundtrip",
+            "CV.Govshuttle.stored_bytes_determine_proposal", "CV.Govshuttle.encode_length_le", "CV.Govshuttle.queryBytes_length_lt",
+            "CV.Govshuttle.query_bytes_roundtrip'", "CV.Govshuttle.stored_bytes_determine_proposal'",
+            "CV.Govshuttle.built_proposals_abiWF", "CV.Govshuttle.accepted_answer_abiWF",
             "CV.Govshuttle.storeWF_step", "CV.Govshuttle.storeWF_run", "CV.Govshuttle.query_eq_slot",
             "CV.Govshuttle.monitors_hold_ok", "CV.Govshuttle.monitors_hold_rej",
             "CV.Govshuttle.stored_on_evm_partial",
